@@ -5,7 +5,8 @@
    FAILS the property on the unchanged code and is proved to fail: C12_names_explicit_refuted
    (recorded finding names-explicit-secret-silence). *)
 From IRC Require Import Str Wild Glob Parse Reply State Handlers Step.
-From IRCP Require Import InvDefs SecretP.
+From IRCP Require Import InvDefs SecretP ViewsP.
+From Coq Require Import Lia.
 From stdpp Require Import gmap.
 
 Section C12.
@@ -48,6 +49,33 @@ Theorem C12_who_channel_partial : forall s c nick viewer ch co,
   outs (process_who cfg i (without ch s) c ch) = Some [(i, srv cfg (rpl_endofwho (client_name c) ch))].
 Proof. exact (who_channel_hides cfg i). Qed.
 
+(* WHOIS never names a secret channel: every entry of its channel list comes from a non-secret
+   channel of the user's membership set - whoever asks *)
+Theorem C12_whois_never_lists_secret_partial : forall s c n u e,
+  e ∈ concat (chunks 30 (List.map (whois_chan_entry s c n) (List.filter (whois_chan_visible s) (elements (u_chans u))))) ->
+  exists ch co, ch ∈ u_chans u /\ chans s !! ch = Some co /\ cm_secret (ch_modes co) = false /\ e = whois_chan_entry s c n ch.
+Proof.
+  intros s c n u e H. rewrite concat_chunks in H by lia. apply elem_of_list_In, in_map_iff in H as [ch [<- Hf]].
+  apply filter_In in Hf as [Hin Hv]. apply elem_of_list_In, elem_of_elements in Hin.
+  unfold whois_chan_visible in Hv. destruct (chans s !! ch) as [co|] eqn:Hco; [|discriminate].
+  exists ch, co. repeat split; auto. now apply negb_true_iff in Hv.
+Qed.
+
+(* an invisible user who shares no channel with the asker: WHOIS answers nothing about it, and
+   NAMES of a channel the asker is not on does not list it *)
+Theorem C12_invisible_hidden_partial : forall s c client viewer n u r0, InvS s -> users s !! n = Some u ->
+  um_invisible (u_modes u) = true -> sets_disjoint (u_chans u) (u_chans viewer) = true ->
+  whois_one cfg s c client viewer n = Ok r0 -> r0 = [].
+Proof.
+  intros s c client viewer n u r0 I Hu Hi Hd H.
+  destruct (whois_channels_spec cfg s c client viewer n u r0 I Hu H) as [[_ E]|[E _]]; [exact E|].
+  rewrite Hi, Hd in E. discriminate.
+Qed.
+
+Theorem C12_invisible_not_in_names_partial : forall s n u r,
+  users s !! n = Some u -> um_invisible (u_modes u) = true -> name_visible s false (n, r) = false.
+Proof. intros s n u r Hu Hi. unfold name_visible. cbn. rewrite Hu, Hi. reflexivity. Qed.
+
 End C12.
 
 Print Assumptions C12_list_explicit_partial.
@@ -55,3 +83,6 @@ Print Assumptions C12_list_all_partial.
 Print Assumptions C12_names_no_members_partial.
 Print Assumptions C12_names_explicit_refuted.
 Print Assumptions C12_who_channel_partial.
+Print Assumptions C12_whois_never_lists_secret_partial.
+Print Assumptions C12_invisible_hidden_partial.
+Print Assumptions C12_invisible_not_in_names_partial.
